@@ -548,22 +548,48 @@ def removeDuplicates (names : List (Option Bytes)) (len : Nat) : Res (List (Opti
   else
     .ok ((used.map fun n => if n.isSome ∧ (used.filter (· = n)).length > 1 then none else n) ++ names.drop len)
 
-/-- One `(index, name)` pair of the function-names subsection. -/
-def funcNameEntry (functionCount : Nat) (names : List (Option Bytes)) : P (List (Option Bytes)) := do
+/-- `names[functionIndex] = functionName`, with functionIndex < functionCount ≤ capacity -/
+def storeFuncName (names : List (Option Bytes)) (idx : Nat) (nm : Bytes) : P (List (Option Bytes)) :=
+  if idx < names.length then pure (names.set idx (some nm)) else P.undefined .functionNameIndex
+
+/-- One `(index, name)` pair, source shape `error-before-name` (up to /repo ed458af): an index outside the function index
+    space known so far is rejected before the name is read. -/
+def funcNameEntryReject (functionCount : Nat) (names : List (Option Bytes)) : P (List (Option Bytes)) := do
   let idx ← u32 E.invalidNameSectionFunctionIndex
   if functionCount ≤ idx then P.fail E.invalidNameSectionFunctionIndex
   else do
     let nm ← name E.invalidNameSectionFunctionName
-    /- names[functionIndex] = functionName, with functionIndex < functionCount ≤ capacity -/
-    if idx < names.length then pure (names.set idx (some nm)) else P.undefined .functionNameIndex
+    storeFuncName names idx nm
+
+/-- One `(index, name)` pair, source shape `skip-after-name` (/repo f819d99): the name is read; for an index outside the
+    function index space known so far it is freed and ignored. -/
+def funcNameEntrySkip (functionCount : Nat) (names : List (Option Bytes)) : P (List (Option Bytes)) := do
+  let idx ← u32 E.invalidNameSectionFunctionIndex
+  let nm ← name E.invalidNameSectionFunctionName
+  if functionCount ≤ idx then pure names else storeFuncName names idx nm
+
+/-- One `(index, name)` pair of the function-names subsection (which of the two shapes: regenerated). -/
+def funcNameEntry (functionCount : Nat) (names : List (Option Bytes)) : P (List (Option Bytes)) :=
+  if Reader.nameIndexOutOfRange = "skip-after-name" then funcNameEntrySkip functionCount names
+  else funcNameEntryReject functionCount names
+
+/-- `wasmNamesEnsureCapacity(&functionNames, functionCount)` + the length store: `none` = growing a non-empty table leaves
+    the added entries uninitialised (no `memset`: up to /repo ed458af); with the `memset` of /repo 67c631b the old entries
+    are kept and the added ones are NULL.  (`funcNames` = `names[0 .. length)`; spare capacity is never read.) -/
+def grownNames (m : RawModule) (functionCount : Nat) : Option (List (Option Bytes)) :=
+  if m.funcNames.length < functionCount then
+    if Reader.nameTableGrowthZeroed then some (m.funcNames ++ List.replicate (functionCount - m.funcNames.length) none)
+    else if m.funcNames.length ≠ 0 then none
+    else some (List.replicate functionCount none)
+  else some m.funcNames
 
 def functionNamesSubsection (m : RawModule) : P RawModule := do
   let functionCount := (m.funcImports.length + m.functions.length) % u32Max
   let n ← u32 E.invalidNameSectionFunctionNameCount
-  /- wasmNamesEnsureCapacity: calloc when empty, realloc (new tail uninitialised) when growing -/
-  if m.funcNames.length < functionCount ∧ m.funcNames.length ≠ 0 then P.undefined .uninitFunctionNames
-  else do
-    let names0 := if m.funcNames.length < functionCount then List.replicate functionCount none else m.funcNames
+  /- wasmNamesEnsureCapacity: calloc when empty, realloc when growing -/
+  match grownNames m functionCount with
+  | none => P.undefined .uninitFunctionNames
+  | some names0 => do
     let names ← iter (funcNameEntry functionCount) n names0
     match removeDuplicates names functionCount with
     | .ok names' => pure { m with funcNames := names', funcNamesLen := functionCount }
@@ -586,6 +612,17 @@ def nameSectionLoop (endRem : Int) : Nat → RawModule → P RawModule
 def nameSection (sectionSize : Nat) (m : RawModule) : P RawModule := fun bs =>
   nameSectionLoop ((bs.length : Int) - sectionSize) (bs.length + 1) m bs
 
+/-- How `wasmReadCustomSection` compares the section name (a C string) with one of its two constants: `exact` =
+    `strcmp(name, c) == 0`, `prefix` = `strncmp(name, c, strlen(c)) == 0` (which one is regenerated from reader.c). -/
+def nameMatch (mode : String) (pat nm : Bytes) : Bool :=
+  match mode with
+  | "exact" => nm == pat
+  | "prefix" => pat.isPrefixOf nm
+  | _ => false
+
+/-- the test that sends a custom section to `wasmReadNameSection` (under `-g`) -/
+def isNameSection (nm : Bytes) : Bool := nameMatch Reader.nameSectionMatch (strBytes Reader.nameSectionName) nm
+
 def customSection (cfg : Cfg) (sectionSize : Nat) (m : RawModule) : P RawModule := do
   let before ← P.remaining
   let nm ← name E.invalidCustomSectionName
@@ -596,7 +633,7 @@ def customSection (cfg : Cfg) (sectionSize : Nat) (m : RawModule) : P RawModule 
     let rem ← P.remaining
     skip size
     pure { m with debugSections := m.debugSections ++ [{ name := nm, length := size, present := min size rem }] }
-  else if cfg.debug ∧ nm = strBytes Reader.nameSectionName then nameSection size m
+  else if cfg.debug ∧ isNameSection nm = true then nameSection size m
   else do
     skip size
     pure m
